@@ -48,7 +48,11 @@ static void s_process_cancellation(struct aws_thread_scheduler *scheduler, struc
 
 static void s_destroy_callback(void *arg) {
     struct aws_thread_scheduler *scheduler = arg;
+    /* publish the exit request under the mutex: the scheduler thread tests it in its wait predicate with the mutex held,
+     * so the request cannot fall between that test and the wait (the notification would find no waiter) */
+    AWS_FATAL_ASSERT(!aws_mutex_lock(&scheduler->thread_data.mutex) && "mutex lock failed!");
     aws_atomic_store_int(&scheduler->should_exit, 1U);
+    AWS_FATAL_ASSERT(!aws_mutex_unlock(&scheduler->thread_data.mutex) && "mutex unlock failed!");
     aws_condition_variable_notify_all(&scheduler->thread_data.c_var);
     aws_thread_join(&scheduler->thread);
 
